@@ -28,7 +28,9 @@ class ORSet:
 
     Maintains a dict mapping elements to sets of tags. Each tag is a
     ``(node_id, sequence_number)`` tuple, generated deterministically
-    (no UUIDs) for reproducible tests.
+    (no UUIDs) for reproducible tests. Tags that have been removed are
+    remembered as tombstones so that merging a replica which still
+    carries an already-removed tag does not resurrect the element.
 
     Add-wins semantics: a concurrent add and remove of the same
     element results in the element being present (the new tag from
@@ -38,11 +40,13 @@ class ORSet:
         node_id: Identifier for this replica.
     """
 
-    __slots__ = ("_entries", "_node_id", "_seq")
+    __slots__ = ("_entries", "_node_id", "_removed", "_seq")
 
     def __init__(self, node_id: str):
         self._node_id = node_id
         self._entries: dict[Any, set[tuple[str, int]]] = {}
+        # Tombstones: tags observed by a remove (on any replica merged so far).
+        self._removed: set[tuple[str, int]] = set()
         self._seq: int = 0
 
     @property
@@ -81,6 +85,7 @@ class ORSet:
             element: The element to remove.
         """
         if element in self._entries:
+            self._removed |= self._entries[element]
             self._entries[element].clear()
 
     def contains(self, element: Any) -> bool:
@@ -106,11 +111,15 @@ class ORSet:
         Args:
             other: Another ORSet to merge from.
         """
+        self._removed |= other._removed
         for element, other_tags in other._entries.items():
             if element not in self._entries:
                 self._entries[element] = set(other_tags)
             else:
                 self._entries[element] |= other_tags
+        # Tags removed on either side stay removed (observed-remove).
+        for tags in self._entries.values():
+            tags -= self._removed
 
     def to_dict(self) -> dict:
         """Serialize to a plain dict."""
@@ -122,6 +131,7 @@ class ORSet:
             "node_id": self._node_id,
             "seq": self._seq,
             "entries": entries,
+            "removed": [list(tag) for tag in sorted(self._removed)],
         }
 
     @classmethod
@@ -135,6 +145,7 @@ class ORSet:
         s._seq = data["seq"]
         for element, tags in data["entries"].items():
             s._entries[element] = {tuple(tag) for tag in tags}
+        s._removed = {tuple(tag) for tag in data.get("removed", [])}
         return s
 
     def __contains__(self, element: Any) -> bool:
